@@ -46,6 +46,21 @@ def rule_H1(ctx: Ctx) -> None:
                   {"fields": list(allf), "not_serialized": not_ser, "missing_identity_fields": missing},
                   "every identifying field (name, grid_n, n_mazes, maze_ctor, maze_ctor_kwargs, endpoint_kwargs, seed, applied_filters) is serialised",
                   "two configurations differing in this field serialize, hash and name their cache file identically")
+    # the order in which serialize() emits its keys is part of the hashed text (json.dumps without sort_keys): everything that contributes keys must be
+    # ordered - the decorator's properties_to_serialize is a list / tuple literal, never a set (str hashing depends on PYTHONHASHSEED)
+    for q in (CFG, "maze_dataset.dataset.rasterized.RasterizedMazeDatasetConfig", f"{DS}.GPTDatasetConfig", "maze_dataset.dataset.collected_dataset.MazeDatasetCollectionConfig"):
+        c = ctx.index.classes.get(q)
+        if c is None:
+            continue
+        for d in c.decorators:
+            pv = d.kwarg("properties_to_serialize")
+            if pv is None:
+                continue
+            ordered = isinstance(pv, (ast.List, ast.Tuple)) and all(isinstance(e_, ast.Constant) for e_ in pv.elts)
+            unordered = isinstance(pv, (ast.Set, ast.SetComp)) or (isinstance(pv, ast.Call) and dotted_of(pv.func) in ("set", "frozenset"))
+            ctx.judge(c, True if ordered else False if unordered else None, {"properties_to_serialize": X.U(pv)[:80]},
+                      "properties_to_serialize is an ordered literal (list / tuple of names): the serialized key order, hence the hash and the file name, is the same in every process",
+                      "the key order of the serialized configuration follows set iteration, which depends on PYTHONHASHSEED: hash and cache file name differ between runs")
     h = ctx.index.func(f"{CFG}.stable_hash_cfg")
     r = X.returns_of(h.node)
     ok = len(r) == 1 and X.same_expr(r[0].value, "stable_hash(json.dumps(self.serialize()))")
@@ -254,6 +269,8 @@ def rule_H4(ctx: Ctx) -> None:
 RULES = [
     Rule("C18.H1", rule_H1, floor=6, doc="identity fields serialised (whole option dicts) and hashed"),
     Rule("C18.H2", rule_H2, floor=5, doc="loaders"),
+    Rule("C18.H5", lambda ctx: __import__("sa.rules.c01", fromlist=["x"]).rule_B6(ctx), floor=16,
+         doc="'the same generator function' rests on the registry: keys are the generators' own names, and no decorator renames a generator (C01.B6 re-judged)"),
     Rule("C18.H3", rule_H3, floor=1, doc="file-name components"),
     Rule("C18.H4", rule_H4, floor=3, doc="collection config"),
 ]
